@@ -23,6 +23,7 @@ class Picture(object):
         self.dots = []  # {"pos": float, "raw": str, "orient": "h"|"v", "colour": rgb, "size": str}
         self.has_axis_layer = False
         self.macro_names = {}
+        self.defects = []  # content-level defects of the document (e.g. a macro defined twice: TeX keeps the later one)
 
 
 _RGB = re.compile(r"rgb\(\s*(\d+)\s*,\s*(\d+)\s*,\s*(\d+)\s*\)")
@@ -248,7 +249,7 @@ def parse_tikz_strict(doc):
         if m:
             key = (m.group(1), m.group(2))
             if key in colours:
-                raise Unparseable("colour macro %s%s defined twice" % key)
+                P.defects.append("colour macro %s%s defined twice" % key)
             colours[key] = _html_colour(m.group(3))
         elif ln.startswith("\\def\\text"):
             # label text may contain newlines: glue until braces balance
@@ -260,7 +261,7 @@ def parse_tikz_strict(doc):
             if not m:
                 raise Unparseable("bad text macro %r" % buf[:60])
             if m.group(1) in texts:
-                raise Unparseable("text macro %s defined twice" % m.group(1))
+                P.defects.append("text macro %s defined twice" % m.group(1))
             texts[m.group(1)] = m.group(2)
         i += 1
     if i >= n:
@@ -515,7 +516,7 @@ def parse_tikz(doc):
         if m:
             key = (m.group(1), m.group(2))
             if key in colours:
-                raise Unparseable("colour macro %s%s defined twice" % key)
+                P.defects.append("colour macro %s%s defined twice" % key)
             colours[key] = _html_colour(m.group(3))
         elif ln.startswith("\\def\\text"):
             buf = ln
@@ -526,7 +527,7 @@ def parse_tikz(doc):
             if not m:
                 raise Unparseable("bad text macro %r" % buf[:60])
             if m.group(1) in texts:
-                raise Unparseable("text macro %s defined twice" % m.group(1))
+                P.defects.append("text macro %s defined twice" % m.group(1))
             texts[m.group(1)] = m.group(2)
         i += 1
     if i >= n:
